@@ -436,9 +436,9 @@ theorem filterMap_ids_sublist {β : Type} (ψ : Xml → Option Xml) (f : Xml →
       · exact ih
       · exact List.Sublist.cons_cons _ ih
 
-theorem find_filterMap (P : Xml → Bool) (ψ : Xml → Option Xml) : ∀ (L : List Xml),
+theorem filter_filterMap (P : Xml → Bool) (ψ : Xml → Option Xml) : ∀ (L : List Xml),
     (∀ x ∈ L, P x = true → ψ x = some x) → (∀ x ∈ L, P x = false → ∀ x', ψ x = some x' → P x' = false) →
-    (L.filterMap ψ).find? P = L.find? P := by
+    (L.filterMap ψ).filter P = L.filter P := by
   intro L
   induction L with
   | nil => intro _ _; rfl
@@ -448,14 +448,14 @@ theorem find_filterMap (P : Xml → Bool) (ψ : Xml → Option Xml) : ∀ (L : L
     cases hP : P x with
     | true =>
       rw [List.filterMap_cons, h1 x (by simp) hP]
-      simp only [List.find?_cons, hP]
+      simp only [List.filter_cons, hP, if_true, ih']
     | false =>
       rw [List.filterMap_cons]
       cases hp : ψ x with
-      | none => simp only [List.find?_cons, hP]; exact ih'
+      | none => simp only [List.filter_cons, hP, Bool.false_eq_true, if_false]; exact ih'
       | some x' =>
         have := h2 x (by simp) hP x' hp
-        simp only [List.find?_cons, hP, this]; exact ih'
+        simp only [List.filter_cons, hP, this, Bool.false_eq_true, if_false]; exact ih'
 
 /-- predicates that only look at the tag -/
 def TagOnly (P : Xml → Bool) : Prop := ∀ x y : Xml, x.tag? = y.tag? → P x = P y
@@ -470,7 +470,7 @@ theorem applyGroup_step (L pre post : List Xml) (first : Xml) (rest : List Xml)
     ((applyGroup L (first :: rest)).filterMap Xml.id?).Nodup ∧
     (∀ k ∈ applyGroup L (first :: rest), k ∈ L ∨ (merges (first :: rest) = true ∧ k = mergedOf (first :: rest))) ∧
     (∀ P : Xml → Bool, TagOnly P → (∀ x ∈ L, P x = true → merges (first :: rest) = true → x ∉ first :: rest) →
-      (applyGroup L (first :: rest)).find? P = L.find? P) := by
+      (applyGroup L (first :: rest)).filter P = L.filter P) := by
   rw [applyGroup_eq]
   have hg : ∀ y ∈ first :: rest, y ∈ L ∧ hasContent y = true := by
     intro y hy
@@ -509,7 +509,7 @@ theorem applyGroup_step (L pre post : List Xml) (first : Xml) (rest : List Xml)
           · cases hp; exact Or.inl hk0
       · cases hp; exact Or.inl hk0
     · intro P hP hPc
-      apply find_filterMap
+      apply filter_filterMap
       · intro x hx hPx; exact psi_outside (first :: rest) L hn (fun y hy => (hg y hy).1) x hx (hPc x hx hPx (by first | trivial | rfl | exact hm))
       · intro x _ hPx x' hp
         rw [hP x' x (psi_tag _ x x' hp)]; exact hPx
@@ -521,7 +521,7 @@ theorem fold_groups : ∀ (R : List (List Xml)) (L pre : List Xml),
     ((R.foldl applyGroup L).filterMap Xml.id?).Nodup ∧
     (∀ k ∈ R.foldl applyGroup L, k ∈ L ∨ ∃ g ∈ R, merges g = true ∧ k = mergedOf g) ∧
     (∀ P : Xml → Bool, TagOnly P → (∀ x ∈ L, P x = true → ∀ g ∈ R, merges g = true → x ∉ g) →
-      (R.foldl applyGroup L).find? P = L.find? P) := by
+      (R.foldl applyGroup L).filter P = L.filter P) := by
   intro R
   induction R with
   | nil => intro L pre hn hf _; exact ⟨by simpa using hf, hn, fun k hk => Or.inl hk, fun _ _ _ => rfl⟩
@@ -840,7 +840,7 @@ theorem mergeLevel_spec (cfg : PartCfg) (kids ks1 : List Xml) (hn : (kids.filter
       ks1.filter hasContent = (gs.map repL).flatten ∧
       (ks1.filterMap Xml.id?).Nodup ∧
       (∀ k ∈ ks1, k ∈ kids ∨ ∃ g ∈ gs, merges g = true ∧ k = mergedOf g) ∧
-      (∀ P : Xml → Bool, TagOnly P → (∀ x ∈ kids, P x = true → ∀ g ∈ gs, merges g = true → x ∉ g) → ks1.find? P = kids.find? P) := by
+      (∀ P : Xml → Bool, TagOnly P → (∀ x ∈ kids, P x = true → ∀ g ∈ gs, merges g = true → x ∉ g) → ks1.filter P = kids.filter P) := by
   unfold mergeLevel at h
   obtain ⟨kc, hkc, h⟩ := bind_ok h
   have := pure_ok h; subst this
@@ -869,7 +869,7 @@ theorem merged_level (cfg : PartCfg) (kids ks1 : List Xml) (hn : (kids.filterMap
       ks1 = gs.foldl applyGroup kids ∧
       ks1.filter hasContent = (gs.map repL).flatten ∧
       (∀ k ∈ ks1, k ∈ kids ∨ ∃ g ∈ gs, merges g = true ∧ k = mergedOf g) ∧
-      (∀ P : Xml → Bool, TagOnly P → (∀ x ∈ kids, P x = true → isMergeable x = false) → ks1.find? P = kids.find? P) ∧
+      (∀ P : Xml → Bool, TagOnly P → (∀ x ∈ kids, P x = true → isMergeable x = false) → ks1.filter P = kids.filter P) ∧
       Runs (keyOf cfg) (gs.map repL) ∧
       (∀ x ∈ (gs.map repL).flatten, elemKey cfg x = .ok (keyOf cfg x)) := by
   obtain ⟨gs, hr, hf, hall, hfold, f1, _, f3, f4⟩ := mergeLevel_spec cfg kids ks1 hn h
@@ -916,7 +916,7 @@ theorem merged_level (cfg : PartCfg) (kids ks1 : List Xml) (hn : (kids.filterMap
       simp only [repL, hmg, Bool.false_eq_true, if_false] at hxg
       exact hall x (List.mem_filter.2 (hsub _ hg x hxg))
   -- a child that is not mergeable is not a member of a merging group: members share the first's tag, hence its prefixed tag
-  have f4' : ∀ P : Xml → Bool, TagOnly P → (∀ x ∈ kids, P x = true → isMergeable x = false) → ks1.find? P = kids.find? P := by
+  have f4' : ∀ P : Xml → Bool, TagOnly P → (∀ x ∈ kids, P x = true → isMergeable x = false) → ks1.filter P = kids.filter P := by
     intro P hP hnm
     apply f4 P hP
     intro x hx hPx g hg hmg hxg
